@@ -162,6 +162,18 @@ var famIndex = func() map[string][]int {
 	return m
 }()
 
+var kindIndex, kindNames = func() (map[string][]int, []string) {
+	m := map[string][]int{}
+	var names []string
+	for i, b := range universe {
+		if _, ok := m[b.kind]; !ok {
+			names = append(names, b.kind)
+		}
+		m[b.kind] = append(m[b.kind], i)
+	}
+	return m, names
+}()
+
 // drawWorkingSet draws 1..6 URL specs; later members are, half of the time, relatives of an
 // earlier one (same confusable family, or the hex file name of it).
 func drawWorkingSet(rt *rapid.T) []urlSpec {
@@ -179,7 +191,9 @@ func drawWorkingSet(rt *rapid.T) []urlSpec {
 				s = urlSpec{Base: fam[rapid.IntRange(0, len(fam)-1).Draw(rt, "relMember")]}
 			}
 		} else {
-			s = urlSpec{Base: rapid.IntRange(0, len(universe)-1).Draw(rt, "urlBase")}
+			// kind first, so that the one-member kinds (empty, plain) are as frequent as the large ones
+			members := kindIndex[kindNames[rapid.IntRange(0, len(kindNames)-1).Draw(rt, "urlKind")]]
+			s = urlSpec{Base: members[rapid.IntRange(0, len(members)-1).Draw(rt, "urlMember")]}
 			if rapid.IntRange(0, 7).Draw(rt, "urlHex") == 0 {
 				s.Hex = 1
 			}
@@ -247,7 +261,7 @@ func (b bundleSpec) String() string {
 func drawCRLSpec(rt *rapid.T, label string, number int64) crlSpec {
 	return crlSpec{
 		NU:      rp.Pick(rt, label+"NU", "-1y", "-1h", "+1h", "+1h", "+1y", "+1y"),
-		Entries: rp.Pick(rt, label+"Entries", 0, 0, 1, 1, 3, 50, 50, 1500),
+		Entries: rp.Pick(rt, label+"Entries", 0, 0, 0, 1, 1, 1, 3, 3, 50, 50, 50, 400),
 		Number:  number,
 	}
 }
@@ -967,16 +981,12 @@ func buildSandbox(validEntry []byte) (env, error) {
 	files := map[string][]byte{
 		"sentinel.txt":               validEntry,
 		"x":                          []byte("sentinel x 0\n"),
-		"b":                          []byte("sentinel b 0\n"),
 		"sentinel-dir/inner.txt":     []byte("inner\n"),
 		"r1/sentinel.txt":            []byte("sentinel r1\n"),
 		"r1/x":                       validEntry,
-		"r1/b":                       []byte("sentinel b 1\n"),
-		"r1/sentinel-dir/inner.txt":  []byte("inner\n"),
 		"r1/r2/sentinel.txt":         validEntry,
 		"r1/r2/x":                    []byte("sentinel x 2\n"),
 		"r1/r2/b":                    []byte("sentinel b 2\n"),
-		"r1/r2/sentinel-dir/in.txt":  []byte("inner\n"),
 		"r1/r2/" + hexName(plainURL): validEntry, // the plain URL's file name, one level too high
 		"r1/r2/cache.txt":            []byte("next to the root\n"),
 	}
